@@ -263,8 +263,14 @@ def random_canon_tree(rnd, n, outliers=False, max_out=None):
             blocks.append([i])
     k = len(blocks)
     par = []
+    deep = rnd.random() < 0.3  # a third of the trees are chain-heavy (deep lineages next to siblings)
     for i in range(k):
-        par.append(rnd.choice([-1, -1] + list(range(i))) if i else -1)
+        if not i:
+            par.append(-1)
+        elif deep:
+            par.append(rnd.choice([i - 1, i - 1, i - 1, -1] + list(range(i))))
+        else:
+            par.append(rnd.choice([-1, -1] + list(range(i))))
     return forest_from_parents(blocks, par), outs
 
 
